@@ -433,3 +433,74 @@ func c05Default(c *core.Ctx, r *core.Reporter) {
 		"isValidInputValue dominates coerceValue", "variable values are coerced without (or before) being validated")
 	_ = types.Typ
 }
+
+func init() {
+	register(&core.Rule{Name: "C05/PAIR-fieldloop", Props: []string{"C05"}, Min: 2,
+		Doc: "an input object is never produced without going through the loop over the type's fields (where defaults are filled in)", Run: c05FieldLoop})
+}
+
+// c05FieldLoop: coerceValue and valueFromAST build an input object in a loop over the type's declared fields; that loop
+// is where omitted fields get their defaults. An exit of the *InputObject arm that hands back a non-nil value before
+// the loop (an "empty input, nothing to do" shortcut) yields an object without its defaults, and only on one of the
+// two paths (variables vs. literals), so the same value gives different arguments depending on how it was supplied.
+func c05FieldLoop(c *core.Ctx, r *core.Reporter) {
+	for _, name := range []string{"coerceValue", "valueFromAST"} {
+		p, fd := c.FindDecl("", name)
+		if fd == nil {
+			r.Unknown(name+"/InputObject", token.NoPos, "not found")
+			continue
+		}
+		info := p.TypesInfo
+		var cl *ast.CaseClause
+		for _, sw := range core.TypeSwitches(info, fd.Body, false) {
+			if sw.Clauses["InputObject"] != nil {
+				cl = sw.Clauses["InputObject"]
+			}
+		}
+		if cl == nil {
+			r.Unknown(name+"/InputObject", fd.Pos(), "no *InputObject arm")
+			continue
+		}
+		loop := -1
+		for i, st := range cl.Body {
+			rs, ok := st.(*ast.RangeStmt)
+			if !ok {
+				continue
+			}
+			if call, ok := rs.X.(*ast.CallExpr); ok {
+				if f := core.CalleeObj(info, call); f != nil && f.Name() == "Fields" {
+					loop = i
+					break
+				}
+			}
+		}
+		if loop < 0 {
+			r.Bad(name+"/InputObject", cl.Pos(), "the *InputObject arm of %s has no loop over the type's Fields(): declared defaults of omitted input fields are not applied", name)
+			continue
+		}
+		var early ast.Node
+		for _, st := range cl.Body[:loop] {
+			ast.Inspect(st, func(n ast.Node) bool {
+				if _, ok := n.(*ast.FuncLit); ok {
+					return false
+				}
+				ret, ok := n.(*ast.ReturnStmt)
+				if !ok || len(ret.Results) != 1 {
+					return true
+				}
+				if id, ok := ret.Results[0].(*ast.Ident); ok && id.Name == "nil" && info.Uses[id] == types.Universe.Lookup("nil") {
+					return true
+				}
+				if early == nil {
+					early = ret
+				}
+				return true
+			})
+		}
+		if early != nil {
+			r.Bad(name+"/InputObject", early.Pos(), "the *InputObject arm of %s returns a non-nil value before the loop over the type's fields: that result has none of the declared input-field defaults, while the sibling path (literal vs. variable) still fills them in — the same input gives different arguments depending on how it is supplied", name)
+		} else {
+			r.OK(name+"/InputObject", cl.Pos(), "the only exits before the field loop return nil")
+		}
+	}
+}
